@@ -21,7 +21,7 @@
 (* A hash that RAISES is not an unequal hash: it is reported as a NOTE.     *)
 (* Output: "FAIL {json}", "DRIFT {json}", "NOTE {json}" lines; total.       *)
 (***************************************************************************)
-EXTENDS EqHashImpl, Json, IOUtils
+EXTENDS DerivedSpaceImpl, Json, IOUtils
 
 Trace == ndJsonDeserialize(IOEnv.TRACE_FILE)
 NObj  == Trace[1].nobj
@@ -53,9 +53,7 @@ ObjClauses(e) ==
 
 ObjDrift(e) ==
   LET n == NObj  i == e.oid  T(j) == IsT(e.eq[j]) IN
-       {<<"eq", i, j>> : j \in {j \in 1..n : /\ ~ImplEqRaises(e.d, Trace[j].d, i = j)
-                                             /\ T(j) # ImplEq(e.d, Trace[j].d, i = j)}}
-  \cup {<<"eq-raises", i, j>> : j \in {j \in 1..n : (e.eq[j] = "E") # ImplEqRaises(e.d, Trace[j].d, i = j)}}
+       {<<"eq", i, j>> : j \in {j \in 1..n : T(j) # ImplEq(e.d, Trace[j].d, i = j)}}
   \cup (IF (e.hs = "raised") # ImplHashRaises(e.d) THEN {<<"hash-raises", i, i>>} ELSE {})
   \cup {<<"hash-key", i, j>> :
           j \in {j \in (i + 1)..n : e.hs = "ok" /\ Trace[j].hs = "ok" /\ ((e.h = Trace[j].h) # (Keys[i] = Keys[j]))}}
@@ -70,44 +68,15 @@ ElementClauses(e) ==
   ELSE IF exp.k # "raise" /\ e.out.vals # exp.vals THEN {<<"element-values", e.id, 0, 0>>}
   ELSE {}
 
-(* ---- derived spaces: e.op, e.spc, e.dt, e.idx, e.out = [k |-> "ok"|"raise", view] ---- *)
-ViewDiff(obs, exp, withw) ==
-       (IF obs.shape # exp.shape THEN {"shape"} ELSE {})
-  \cup (IF obs.dt # exp.dt THEN {"dtype"} ELSE {})
-  \cup (IF obs.fld # exp.fld THEN {"field"} ELSE {})
-  \cup (IF withw /\ obs.w # exp.w THEN {"weighting"} ELSE {})
-
-Floating(dt) == dt \in {"f32", "f64", "c64", "c128"}
-\* default weighting of a discretised space over the selected axes: the cell volume of the selection
-GridOf(spc) == spc.sub[1].sub[2]
-SideOf(spc, a) == LET v == GridOf(spc).q[a] IN IF Len(v) = 1 THEN QOne ELSE QSub(v[2], v[1])
-RECURSIVE QProd(_)
-QProd(s) == IF s = <<>> THEN QOne ELSE QMul(Head(s), QProd(Tail(s)))
-CellVolOf(spc, idx) == QProd([k \in 1..Len(idx) |-> SideOf(spc, idx[k])])
-AllAxes(spc) == [a \in 1..Len(GridOf(spc).q) |-> a]
-HasDefaultWeighting(spc) ==
-  LET w == WView(WeightingOf(spc)) IN
-  w.kind = "const" /\ w.c = (IF w.exp = Inf THEN QOne ELSE CellVolOf(spc, AllAxes(spc)))
-
+(* ---- derived spaces: e.op, e.spc, e.dt, e.idx, e.form, e.out = [k |-> "ok"|"raise", view] ---- *)
+CaseOf(e) == DCase(e.op, e.dt, e.idx, e.form)
 DerivedClauses(e) ==
-  LET spc == e.spc
-      claimw ==   \* is the weighting of the result claimed?
-        CASE e.op \in {"astype", "real_space", "complex_space"} -> Floating(e.dt)
-          [] e.op = "byaxis" -> TRUE
-          [] e.op = "byaxis_in" -> HasDefaultWeighting(spc)        \* documented: "except possibly weighting"
-          [] e.op \in {"getitem-int", "getitem-list"} -> TRUE
-      claimed == IF e.op = "byaxis" THEN ByAxisClaimed(spc, e.idx) ELSE TRUE
-      exp ==
-        CASE e.op \in {"astype", "real_space", "complex_space"} -> AstypeView(spc, e.dt)
-          [] e.op = "byaxis" -> ByAxisView(spc, e.idx)
-          [] e.op = "byaxis_in" ->
-               LET v == ByAxisView(spc, e.idx) IN
-               [v EXCEPT !.w = [v.w EXCEPT !.c = IF v.w.exp = Inf THEN QOne ELSE CellVolOf(spc, e.idx)]]
-          [] e.op = "getitem-int" -> View(Comps(spc)[e.idx[1]])
-          [] e.op = "getitem-list" -> PSelectView(spc, e.idx)
-  IN  IF ~claimed THEN {}
-      ELSE IF e.out.k = "raise" THEN {<<"derived-raises:" \o e.op, e.id, 0, 0>>}
-      ELSE {<<"derived-" \o f \o ":" \o e.op, e.id, 0, 0>> : f \in ViewDiff(e.out.view, exp, claimw)}
+  {<<"derived-" \o f \o ":" \o e.op, e.id, 0, 0>> : f \in DerivedDiff(e.spc, CaseOf(e), e.out)}
+\* layer C (DerivedSpaceImpl) against the observation
+DerivedDrift(e) ==
+  LET m == ImplDerived(e.spc, CaseOf(e)) IN
+  IF m.k # e.out.k THEN {<<"derived-" \o e.op \o ":" \o m.k \o "-modelled-" \o e.out.k \o "-observed", e.id, 0>>}
+  ELSE IF m.k = "ok" /\ m.view # e.out.view THEN {<<"derived-view:" \o e.op, e.id, 0>>} ELSE {}
 
 (* ---- element indexing commutes with asarray: e.out in equal | differ | raise-elem | raise-array | raise-both ---- *)
 IndexClauses(e) ==
@@ -119,16 +88,9 @@ Clauses(e) ==
     [] e.ev = "derived" -> DerivedClauses(e)
     [] e.ev = "index" -> IndexClauses(e)
 
-\* family features of a pair of objects (they name the cell in the signature of a finding)
-RECURSIVE WClsSet(_)
-WClsSet(d) == (IF IsWeighting(d) THEN {d.cls} ELSE {}) \cup UNION {WClsSet(d.sub[k]) : k \in 1..Len(d.sub)}
-RECURSIVE IntvDims(_)
-IntvDims(d) == (IF d.cls = "IntervalProd" THEN {Len(d.q[1])} ELSE {}) \cup UNION {IntvDims(d.sub[k]) : k \in 1..Len(d.sub)}
-Feat(a, b) ==
-       (IF HasUnorderedSet(a) /\ HasUnorderedSet(b) THEN {"unordered-set"} ELSE {})
-  \cup (IF HasIntv(a) /\ HasIntv(b) /\ IntvDims(a) # IntvDims(b) THEN {"intervalprod-ndim"} ELSE {})
-  \cup (IF WClsSet(a) # {} /\ WClsSet(b) # {} /\ WClsSet(a) # WClsSet(b) THEN {"weighting-classes"} ELSE {})
-  \cup (IF HasNegZeroGrid(a) # HasNegZeroGrid(b) THEN {"grid-negative-zero"} ELSE {})
+\* family features of a pair of objects (they name the cell in the signature of a finding); none is left on the
+\* current tree, the classes of the two objects identify the family
+Feat(a, b) == {}
 WithFeat(e, bad) ==
   {[c |-> t[1], i |-> t[2], j |-> t[3], k |-> t[4],
     f |-> IF e.ev = "obj" THEN Feat(Trace[t[2]].d, Trace[t[3]].d)
@@ -141,7 +103,7 @@ TraceStep ==
   /\ l <= Len(Trace)
   /\ LET e == Trace[l]
          bad == Clauses(e)
-         drift == IF e.ev = "obj" THEN ObjDrift(e) ELSE {}
+         drift == IF e.ev = "obj" THEN ObjDrift(e) ELSE IF e.ev = "derived" THEN DerivedDrift(e) ELSE {}
          notes == IF e.ev = "obj" THEN ObjNotes(e) ELSE {}
      IN  /\ (IF bad = {} THEN TRUE ELSE PrintT("FAIL " \o ToJson([line |-> l, bad |-> WithFeat(e, bad)])))
          /\ (IF drift = {} THEN TRUE ELSE PrintT("DRIFT " \o ToJson([line |-> l, drift |-> drift])))
